@@ -1,8 +1,135 @@
-(** C17 - Invalid Engine.IO requests get the protocol's error and create no session.
-    This file holds statements only; every proof is `exact <lemma>`. *)
-From SioV Require Import Base.GoSem Eio.Handshake Eio.HandshakeProofs.
+(** C17 - Invalid Engine.IO requests get the protocol's error and create no session; every accepted
+    handshake yields a session id unique among live sessions; once the server is closed it admits
+    no new session and all existing ones are closed.
+    This file holds statements only; every proof is `exact <lemma>`.
+
+    [serve rnd st rq] is the server's answer to request [rq] in state [st] (closed flag, socket
+    store, id sequence number) and the state afterwards; [rnd q] is what the random source returns
+    for the id proposal carrying sequence number [q] (arbitrary: no theorem constrains it beyond
+    "bytes").  [defects st rq] are the invalid-request classes [rq] falls in, given the live
+    sessions: unsupported version (code 5), unknown/closed sid (1), wrong method (2), unknown
+    transport on a handshake (0), transport that is neither the session's nor an upgrade (3). *)
+From SioV Require Import Base.GoSem Base.Conc Eio.Handshake Eio.HandshakeIdProofs Eio.HandshakeProofs
+  Eio.HandshakeRace Eio.HandshakeRaceProofs.
+
+(** An invalid request is answered with the error code of (one of) its defects - HTTP 400 and the
+    protocol's JSON error - and neither creates nor alters a session.  [gen_ok]: the id generator
+    does not give up (it does only when 11 consecutive proposals are ids of live sessions; the
+    handshake is then answered 500 before the transport name is looked at). *)
+Theorem C17_invalid_is_error_and_pure : forall rnd st rq,
+  s_closed st = false -> r_auth rq = true -> gen_ok rnd st ->
+  defects st rq <> [] ->
+  exists d, In d (defects st rq)
+    /\ fst (serve rnd st rq) = RErr (code_of d)
+    /\ s_store (snd (serve rnd st rq)) = s_store st
+    /\ s_closed (snd (serve rnd st rq)) = false.
+Proof. exact invalid_is_error_and_pure. Qed.
+
+(** ... so a request with exactly one defect gets exactly that defect's code. *)
+Theorem C17_single_defect_exact_code : forall rnd st rq d,
+  s_closed st = false -> r_auth rq = true -> gen_ok rnd st ->
+  defects st rq = [d] -> fst (serve rnd st rq) = RErr (code_of d).
+Proof. exact single_defect_code. Qed.
+
+(** Whatever the request (valid or not, any method, any parameters, any Authenticator answer, any
+    random bytes): the closed flag is untouched, and either the store is untouched, or the request
+    was a GET handshake accepted by the Authenticator and exactly one session was added under an id
+    that no live session had. *)
+Theorem C17_only_a_handshake_changes_the_store : forall rnd st rq r st',
+  serve rnd st rq = (r, st') ->
+  s_closed st' = s_closed st /\
+  ((is_open r = false /\ s_store st' = s_store st)
+   \/ exists sid k, r = ROpen sid k /\ r_sid rq = [] /\ r_auth rq = true /\ r_meth rq = GET
+                    /\ ~ In sid (sids (s_store st)) /\ s_store st' = s_store st ++ [(sid, k)]).
+Proof. exact serve_effect. Qed.
+
+(** Every accepted handshake yields a session id unique among the live sessions (by the store's
+    own check, independently of the random source), and session ids stay pairwise distinct. *)
+Theorem C17_valid_handshake_fresh : forall rnd st rq sid k st',
+  serve rnd st rq = (ROpen sid k, st') ->
+  ~ In sid (sids (s_store st)) /\ s_store st' = s_store st ++ [(sid, k)] /\ (wf st -> wf st').
+Proof. exact valid_handshake_fresh. Qed.
+
+(** Two generated ids whose sequence numbers differ in their low 24 bits are different, whatever
+    the random source returned for either of them. *)
+Theorem C17_ids_distinct_by_seq : forall q1 q2 r1 r2,
+  bytes_ok r1 = true -> bytes_ok r2 = true ->
+  (q1 mod 16777216 <> q2 mod 16777216)%N ->
+  generate_id q1 r1 <> generate_id q2 r2.
+Proof. exact ids_distinct_by_seq. Qed.
+
+(** Hence any 2^24 consecutive ids (the uint32 counter wrapping around included) are pairwise
+    distinct, for every random source. *)
+Theorem C17_consecutive_ids_distinct : forall (rnd : N -> bytes) start i j,
+  (forall k, bytes_ok (rnd k) = true) ->
+  (i < j)%N -> (j - i < 16777216)%N ->
+  generate_id (wrap32 (start + i)) (rnd i) <> generate_id (wrap32 (start + j)) (rnd j).
+Proof. exact consecutive_ids_distinct. Qed.
+
+(** What the ids suite checks per row ([tail_ok]: the id ends with the base64url group of its
+    sequence number) implies that the ids of a run of at most 2^24 are pairwise distinct. *)
+Theorem C17_ids_rows_distinct : forall (start : N) (ids : list bytes),
+  (N.of_nat (length ids) <= 16777216)%N ->
+  (forall i id, nth_error ids i = Some id -> tail_ok (wrap32 (start + N.of_nat i)) id) ->
+  NoDup ids.
+Proof. exact ids_rows_distinct. Qed.
 
 (** Once the server is closed, every request is answered 503 and changes nothing. *)
 Theorem C17_closed_admits_none : forall rnd st rq,
   s_closed st = true -> serve rnd st rq = (RClosed, st).
 Proof. exact serve_closed. Qed.
+
+(** Close closes every live session (the store is empty afterwards) ... *)
+Theorem C17_close_closes_all : forall st,
+  s_closed (close st) = true /\ s_store (close st) = [] /\ s_seq (close st) = s_seq st.
+Proof. exact close_closes_all. Qed.
+
+(** ... and whatever arrives afterwards is answered 503 and the store stays empty. *)
+Theorem C17_close_then_nothing : forall st rqs,
+  let '(answers, st') := serve_all (close st) rqs in
+  Forall (fun r => r = RClosed) answers /\ s_store st' = [] /\ s_closed st' = true.
+Proof. exact close_then_nothing. Qed.
+
+(** Handshakes racing Close, for EVERY schedule of any number of handshake threads and the Close
+    thread (steps: closed check / store insertion / re-check; flag / snapshot / one socket.Close
+    each): when Close has returned and no handshake is in flight, the store is empty, the server
+    is closed, every session that was live and every session admitted meanwhile has had its close
+    run, and no socket was closed twice.  Session ids of distinct sockets are distinct
+    (C17_ids_distinct_by_seq and the store's check). *)
+Theorem C17_close_race_closes_all : forall (sidf : nat -> N) (live : list N),
+  (forall i j, sidf i = sidf j -> i = j) -> (forall i, ~ In (sidf i) live) ->
+  forall sched,
+    let s := run true sidf sched live in
+    q_cp s = CDone -> settled s ->
+    q_store s = []
+    /\ q_closed s = true
+    /\ (forall x, In x live -> In x (q_closedsocks s))
+    /\ (forall i, q_hs s i = HAdmitted -> In (sidf i) (q_closedsocks s))
+    /\ NoDup (q_closedsocks s).
+Proof. exact close_race_closes_all. Qed.
+
+(** A handshake whose closed check comes after the flag was set is refused and adds nothing. *)
+Theorem C17_close_race_refuses_late : forall (sidf : nat -> N) s i s',
+  q_closed s = true -> q_hs s i = H0 -> step true sidf (Some i) s = Some s' ->
+  q_hs s' i = HRefused /\ q_store s' = q_store s.
+Proof. exact refused_when_closed. Qed.
+
+(** The defect that was repaired (fix 1046f23): without the re-check after the store insertion, the
+    schedule forced by an Authenticator that calls srv.Close() leaves the late session in the
+    store of the closed server, never closed. *)
+Example C17_unfixed_close_race_leaks :
+  let s := run false (fun i => N.of_nat i) (forced_schedule 0) [] in
+  q_cp s = CDone /\ settled s /\ q_closed s = true /\ q_store s = [0%N] /\ q_closedsocks s = [].
+Proof. exact unfixed_leaks. Qed.
+
+(** Non-vacuity: a running server with one live polling session; a PUT carrying that sid has the
+    single defect "wrong method" and is answered with code 2; a handshake is accepted. *)
+Example C17_example :
+  let sid := generate_id 7 (repeat 1%N 12) in
+  let st := mkState false [(sid, Polling)] 8 in
+  let rnd := fun _ : N => repeat 2%N 12 in
+  defects st (mkReq PUT [52]%N s_polling sid false true) = [BadMethod]
+  /\ fst (serve rnd st (mkReq PUT [52]%N s_polling sid false true)) = RErr 2
+  /\ gen_ok rnd st
+  /\ is_open (fst (serve rnd st (mkReq GET [52]%N s_polling [] false true))) = true.
+Proof. vm_compute. repeat split; discriminate. Qed.
